@@ -32,6 +32,10 @@ CLAIMS = {
     text='Lean 4 theorem roundtrip_struct (reader after writer = identity and consumes all text, for every struct type and every well-typed unambiguous value, with the text primitives proved rather than assumed) and the percent-encoding round trip; tied to the code by a differential run of the real to_string / from_bytes / QueryParams::iter against the writer and reader models, and of decoded texts against an independent RFC 3986 pair reader',
     note=TB + 'modelled not verified: serde derive visitor protocol, str::parse, from_utf8, percent_encoding (hand models; PrimsOK proved for them); floats outside the catalogue; known finding KF-C09-empty-ambiguity',
     technique='Lean 4 proof (round trip by induction over fields/values) + model/implementation correspondence'),
+ 'C10': dict(
+    text='Lean 4 theorems over the multipart model (readUntil_exact: if the delimiter occurs nowhere before its intended position, scanning content ++ CRLF-delimiter stops exactly there, so the content is recovered byte for byte whatever bytes it holds; readUntil_split / readUntil_rest; empty_file_input; shape_mismatch: a mismatch is an error, never a wrong value); the parser, Multipart::next (grouping, order, empty-file rule) and the field decoding are a Lean model tied to the code by a differential run on forms produced by an independent RFC 7578 encoder (optional part headers, any boundary, awkward contents) into four target structs, plus mutated bodies',
+    note=TB + 'the whole-form theorem parse_encode (parse after the RFC 7578 encoder = the form) is decided per run against the independent encoder; its Lean proof is not written beyond the content-scanning lemma; known finding KF-C10-boundary-in-content',
+    technique='Lean 4 proof (scanning lemmas, shape rules) + model/implementation correspondence with an independent encoder'),
  'C11': dict(
     text='Lean 4 theorems over the cookie models (value_roundtrip_pct: a percent-encoded value of arbitrary Unicode text, alone or followed by "; more", is read back exactly and leaves the rest for the next cookie; name_roundtrip: a token name followed by "=" is read as that name; setcookie_pair: the built Set-Cookie line starts with name=percent-encoded value made only of cookie-octets); differential run of the real struct decoder, cookie iterator, Set-Cookie builder (wire bytes) and SetCookie::from_raw against the models, against jars in the three RFC 6265 value forms, and against an independent RFC 6265 set-cookie-string grammar over all 128 directive subsets',
     note=TB + 'the whole-jar and whole-line round trips are decided per run (model + independent grammar); their Lean proofs (induction over the jar / the directive list) are not written; known finding KF-C11-iter-cookies',
